@@ -45,3 +45,31 @@ def _unpack(fmt, data):
 
 struct.unpack = _unpack
 struct.error = _struct.error
+
+
+class _Struct:
+    def __init__(self, fmt):
+        self.format = fmt
+        self.size = _struct.calcsize(fmt)
+
+    def unpack(self, data):
+        return _unpack(self.format, data)
+
+    def iter_unpack(self, data):
+        if not isinstance(data, vfs.SymBytes):
+            return _struct.iter_unpack(self.format, data)
+        k = self.size // 4
+        if len(data.fields) % k:
+            raise _struct.error("iterative unpacking requires a buffer of a multiple of %d bytes" % self.size)
+        return iter([_unpack(self.format, vfs.SymBytes(data.fields[i:i + k])) for i in range(0, len(data.fields), k)])
+
+    def unpack_from(self, data, offset=0):
+        if isinstance(data, vfs.SymBytes):
+            k0 = offset // 4
+            return _unpack(self.format, vfs.SymBytes(data.fields[k0:k0 + self.size // 4]))
+        return _struct.unpack_from(self.format, data, offset)
+
+
+struct.Struct = _Struct
+struct.iter_unpack = lambda fmt, data: _Struct(fmt).iter_unpack(data)
+struct.unpack_from = lambda fmt, data, offset=0: _Struct(fmt).unpack_from(data, offset)
